@@ -494,6 +494,12 @@ impl Scenario for C16Includes {
                     return Err(cx.fail("T1", "include-not-transparent", format!("load(main) differs from loading the flattened text: {}", crate::c01::model_diff(&rm, &mm))));
                 }
                 if !a2ml_inc {
+                    // cross-check that does not rely on the crate's own PartialEq (see C01 O2)
+                    if let Some(d) = guarded(cx, "no-panic", "Debug rendering of the models", || crate::c01::independent_diff(&rm, &mm))? {
+                        return Err(cx.fail("T1", "equal-by-PartialEq-but-Debug-renderings-differ", format!("load(main) and the flattened text give models that the crate's == calls equal, but their Debug renderings (IF_DATA excluded) differ: {d}")));
+                    }
+                }
+                if !a2ml_inc {
                     let eq2 = guarded(cx, "no-panic", "model comparison", || m == rm)?;
                     if !eq2 {
                         return Err(cx.fail("T1", "include-not-transparent", format!("load(main) (before merge_includes) differs from the flattened text: {}", crate::c01::model_diff(&rm, &m))));
